@@ -154,3 +154,4 @@
 ; fs.FileInfo getters as pure functions of the info value
 (declare-fun fileModTimeId (Iface) Int)   ; identity of the ModTime() value (times are opaque here)
 (define-fun imod ((a Int) (b Int)) Int (mod a b))
+(declare-fun readlinkOf (String) String)   ; os.Readlink: the target stored in the link
